@@ -45,7 +45,7 @@ def strategy_for(t):
                     fr = draw(specs.rle_frames(n, pf))
                     it = {"label": l, "frames": fr}
                     if t == "emg":
-                        it["channel"] = i
+                        it["channel"] = (i * 7 + 3) % 11 if k <= 11 else i  # distinct, not ascending
                     items.append(it)
                 spec[key] = items
                 spec["_chmode"] = "explicit"
@@ -141,6 +141,59 @@ def make_run(t):
         after = specs.lib_write(b)
         if after != before or [id(x) for x in iter(b)] != [id(x) for x in items]:
             ctx.fail("block-changed", f"{t}: the block's encoding or item list changed during read-only access")
+        # second phase: the accessors must keep describing the block after it is edited (no stale view)
+        from .c16 import make_track
+
+        kind = {"data3D": "data3D", "force3D": "force3D", "emg": "emg"}.get(t)
+        nfr = spec.get("nSamples", spec.get("nFrames", 1))
+        if kind:
+            new_item = make_track(kind, nfr, "zz", 7)
+            (b.addSignal if t == "emg" else b.add_track)(new_item)
+        else:
+            from basictdf.tdfEvents import Event
+
+            new_item = Event("zz", [1.0])
+            b.events.append(new_item)
+        now = list(iter(b))
+        if len(b) != n + 1 or len(now) != n + 1 or now[-1] is not new_item:
+            ctx.fail("after-add/len-or-iter-stale", f"{t}: after adding an item len() is {len(b)} and iteration yields {len(now)} items (expected {n + 1})")
+        try:
+            got = b["zz"]
+        except Exception as e:  # noqa
+            got = e
+        if got is not new_item:
+            ctx.fail("after-add/label-lookup-stale", f"{t}: after adding an item labelled 'zz', b['zz'] gives {type(got).__name__}")
+        try:
+            if not ("zz" in b):
+                ctx.fail("after-add/membership-stale", f"{t}: after adding an item labelled 'zz', ('zz' in b) is false")
+            if b[n] is not new_item:
+                ctx.fail("after-add/index-stale", f"{t}: after adding an item, b[{n}] is not the new item")
+        except Exception as e:  # noqa
+            ctx.fail("after-add/raises", f"{t}: accessor raised {type(e).__name__} after an item was added")
+        if n:
+            # remove the first item through the public list / API and look its label up again
+            first = items[0]
+            if t == "emg":
+                b.removeSignal(first.label)
+            elif t == "events":
+                del b.events[0]
+            else:
+                del b.tracks[0]
+            rest = items[1:] + [new_item]
+            want_first = next((it for it in rest if it.label == first.label), None)
+            try:
+                got = b[first.label]
+            except KeyError:
+                got = None
+            except Exception as e:  # noqa
+                got = e
+            if got is not want_first:
+                ctx.fail("after-remove/label-lookup-stale", f"{t}: after removing the first item, lookup of its label {first.label!r} gives "
+                                                            f"{'the removed item' if got is first else type(got).__name__}")
+            if len(b) != n or [id(x) for x in iter(b)] != [id(x) for x in rest]:
+                ctx.fail("after-remove/len-or-iter-stale", f"{t}: after removing the first item len() is {len(b)}, iteration yields {len(list(iter(b)))} items")
+            if bool(first.label in b) != (want_first is not None):
+                ctx.fail("after-remove/membership-stale", f"{t}: after removing the first item, membership of its label is stale")
         dup = len(set(labels)) < len(labels)
         ctx.case(case, dup, labels=[t, f"items={min(n, 3)}{'+' if n >= 3 else ''}", "duplicate-label" if dup else "unique-labels",
                                     "empty-label" if "" in labels else "no-empty-label"])
